@@ -314,14 +314,21 @@ def gen_spec(rng, ds):
         o2, _ = c03.gen_opts_long(rng, ds)
         opts.pop("times", None)
         opts.update({k: v for k, v in o2.items() if k in ("dates", "tods")})
+    use_T = False
+    if rng.random() < 0.2 and all(i["fmt"] == "text" for i in refmodel.all_inputs(ds)) and all("obs" in i["has"] for i in ds["inputs"]):
+        # -T h -Tagg f -Tx leadtime: obs and fcst are replaced by f over the trailing h hours before anything else is computed
+        # (text inputs: NetCDF files with shuffled lead times have the known window-by-position finding of C15)
+        opts["T"] = {"h": rng.choice([2, 6, 12, 24, 25, 48]), "agg": rng.choice(["mean", "max", "min", "sum", "median", "iqr", "range", "0.75"]),
+                     "tx": "leadtime"}
+        use_T = True
     spec["opts"] = opts
-    if ds.get("clim") is not None and rng.random() < 0.6:
+    if not use_T and ds.get("clim") is not None and rng.random() < 0.6:
         spec["clim"] = True
         spec["clim_type"] = rng.choice(["subtract", "divide"])
     i0 = ds["inputs"][0]
     allobs = all("obs" in i["has"] for i in ds["inputs"])
     # (field overrides are not combined with -c/-C: which field of the climatology file then applies is undocumented)
-    if spec.get("clim"):
+    if spec.get("clim") or use_T:
         pass
     elif spec["metric"] not in ("obs", "fcst") and rng.random() < 0.2:
         choices = []
@@ -337,7 +344,7 @@ def gen_spec(rng, ds):
         spec["obs_field"] = ["fcst"]
     if rng.random() < 0.3:
         spec["leg"] = ["leg %d" % i if rng.random() < 0.5 else "L%d" % i for i in range(len(ds["inputs"]))]
-    if rng.random() < 0.2:
+    if rng.random() < 0.2 and not use_T:      # (single-precision pre-aggregated values: running sums with cancellation are not compared)
         spec["acc"] = True
     return spec
 
@@ -371,7 +378,7 @@ def run_semantic(desc, ctx):
         paths, cpath = gen.materialize(ds, d, rng if rng.random() < 0.5 else None)
         for _ in range(4):
             spec = gen_spec(rng, ds)
-            if gapcase and rng.random() < 0.7:
+            if gapcase and rng.random() < 0.7 and not spec["opts"].get("T"):
                 spec["acc"] = True
                 spec["axis"] = "leadtime"
             groups = refcli.spec_to_argv(spec, paths, cpath)
@@ -406,7 +413,8 @@ def run_semantic(desc, ctx):
                 continue
             h, rows = runner.parse_csv(o.stdout)
             if ref is not None:
-                msg = refcli.compare_table(h, rows, ref)
+                # (-T: the pre-aggregated values are single precision; scores that cancel to ~0 get an absolute tolerance)
+                msg = refcli.compare_table(h, rows, ref, sig=5 if spec["opts"].get("T") else 6, abs_tol=2e-6 if spec["opts"].get("T") else 0.0)
                 if msg:
                     ctx.violation("semantic-table|%s" % spec["metric"], "verif %s\n%s\n--- verif printed:\n%s"
                                   % (" ".join(rel), msg, runner.strip_ansi(o.stdout)[-800:]), case)
